@@ -1,11 +1,16 @@
 import Sm9.Proofs.Tower
+import Sm9.Proofs.TowerField
+import Sm9.Proofs.MontSop
 import Sm9.Model.Api
 /-!
 # C12 — Fq2 arithmetic is arithmetic in Fq[u]/(u²+2)
 
 The ring structure is put on the model's own `add_inplace / sub_inplace / neg_inplace /
 mul_inplace` (the two interleaved sums of products), so each law below is a statement
-about the multiplication algorithm as coded, for all x, y, z.
+about the multiplication algorithm as coded, for all x, y, z.  At limb level the interleaved
+sum-of-products (Longa's Algorithm 2 as coded: four accumulate/reduce rounds, `add_carry` folded
+u4 times, one final conditional subtraction) terminates and returns the canonical
+representative of Σ aᵢ·bᵢ·R⁻¹ mod q, for up to four pairs of arbitrary reduced operands.
 -/
 namespace Sm9.C12
 
@@ -30,6 +35,22 @@ theorem scale_eq (x : Fq2) (k : Fq) : x.scale k = x * Fq2.new k 0 := Fq2.scale_e
 theorem parts (a b : Fq) : (Fq2.new a b).real = a ∧ (Fq2.new a b).imaginary = b := ⟨rfl, rfl⟩
 theorem to_slice_layout (x : Fq2) : Api.fq2ToSlice x = beBytes 32 x.c1.val ++ beBytes 32 x.c0.val := rfl
 theorem is_even_real (x : Fq2) : Api.fq2IsEven x = (x.c0.val % 2 == 0) := rfl
+
+/-- limb level: `Fq::sum_of_products` refines Σ aᵢ bᵢ (Montgomery form), result canonical -/
+theorem sum_of_products_refines (as bs : List Nat) (hlen : as.length = bs.length) (h4 : as.length ≤ 4)
+    (ha : ∀ a ∈ as, a < Consts.FQ) (hb : ∀ b ∈ bs, b < Consts.FQ) :
+    ∃ res, FqL.sum_of_products as bs = some res ∧ res < Consts.FQ ∧
+      (res * W256) % Consts.FQ = ((List.zipWith (· * ·) as bs).sum) % Consts.FQ :=
+  FqL.sum_of_products_refines as bs hlen h4 ha hb
+/-- … and agrees exactly with the separate multiply-then-add path -/
+theorem sum_of_products_eq_mul_add (a0 a1 b0 b1 : Nat) (h0 : a0 < Consts.FQ) (h1 : a1 < Consts.FQ)
+    (h2 : b0 < Consts.FQ) (h3 : b1 < Consts.FQ) :
+    FqL.sum_of_products [a0, a1] [b0, b1] =
+      some (Fp.add FqL.P (Fp.mul FqL.P a0 b0) (Fp.mul FqL.P a1 b1)) :=
+  FqL.sum_of_products_eq_mul_add a0 a1 b0 b1 h0 h1 h2 h3
+/-- Fq2 is a field; `inverse` is `None` exactly for zero -/
+theorem inverse_correct (x : Fq2) (h : x ≠ 0) : ∃ y, x.inverse = some y ∧ y * x = 1 := Fq2.inverse_correct x h
+theorem inverse_zero : (0 : Fq2).inverse = none := Fq2.inverse_zero
 
 /-- non-vacuity: a concrete product with all four coefficients non-trivial -/
 example : (Fq2.new (Fq.ofNat 3) (Fq.ofNat 5)) * (Fq2.new (Fq.ofNat 7) (Fq.ofNat 11))
